@@ -22,6 +22,10 @@ bytes, prints *which* bytes those are, and prints `min rstable (its own stable
 length)`, so the streams differ iff the real code exposed or drained something
 the model does not consider stable (or different bytes).  A `seen` line that
 is not expected (stale, from a replayed transcript) is ignored.
+
+`spec=1` in the `finish` / `err` observations is a model-internal cross-check the
+harness prints as a constant: the incremental machine's bytes (resp. verdict)
+equal `Spec.encode` (resp. `Spec.decode`) of the concatenated input.
 -/
 import Woodpile.Driver.Util
 import Woodpile.Model.Hcobs
@@ -49,6 +53,8 @@ structure St where
   head : String := ""
   /-- the run is over once the owed observation is printed (decoder error) -/
   dieAfter : Bool := false
+  /-- everything fed so far in this run (for the comparison with `Spec`) -/
+  input : List UInt8 := []
 
 def prodParams : Params := ⟨Woodpile.Gen.maxInit, Woodpile.Gen.maxSub, Woodpile.Gen.radix⟩
 
@@ -118,7 +124,7 @@ def step (s : St) (ws : List String) : St × List String :=
       | some m, some d =>
         let (es', nid', emits) := Enc.feedAll s.p s.es s.pipe.nextId m d
         let pipe' := runEmits s.pipe emits
-        if nid' = pipe'.nextId then ({ s with es := es', pipe := pipe', await := true }, [])
+        if nid' = pipe'.nextId then ({ s with es := es', pipe := pipe', await := true, input := s.input ++ d }, [])
         else ({ s with phase := .done }, ["model-desync"])
       | _, _ => (s, ["bad-op"])
     else (s, ["bad-op"])
@@ -128,10 +134,13 @@ def step (s : St) (ws : List String) : St × List String :=
       | some m, some d =>
         match Dec.feedAll s.p m s.ds d with
         | .ok (ds', emits) =>
-          ({ s with ds := ds', pipe := runEmits s.pipe emits, await := true, head := "ok " }, [])
+          ({ s with ds := ds', pipe := runEmits s.pipe emits, await := true, head := "ok ", input := s.input ++ d }, [])
         | .error (e, emits) =>
-          ({ s with pipe := runEmits s.pipe emits, await := true, head := "err " ++ fmtErr e ++ " ",
-                    dieAfter := true }, [])
+          -- the batch definition must reject what the state machine rejected
+          let agree := (Spec.decode s.p (s.input ++ d)).isNone
+          ({ s with pipe := runEmits s.pipe emits, await := true,
+                    head := "err " ++ fmtErr e ++ " spec=" ++ b01 agree ++ " ",
+                    dieAfter := true, input := s.input ++ d }, [])
       | _, _ => (s, ["bad-op"])
     else (s, ["bad-op"])
   | [op, k] =>
@@ -144,15 +153,19 @@ def step (s : St) (ws : List String) : St × List String :=
     if s.phase = .live then
       if s.isEnc then
         let pipe' := runEmits s.pipe (Enc.finish s.p s.es)
+        -- incremental machine vs. batch definition of the format
+        let agree := decide (pipe'.consumed ++ pipe'.bytes = Spec.encode s.p s.input) && !pipe'.pending
         ({ s with pipe := pipe', phase := .done },
           ["finish size=" ++ toString pipe'.size ++ " pending=" ++ b01 pipe'.pending
-            ++ " rest=" ++ toHex pipe'.stable])
+            ++ " spec=" ++ b01 agree ++ " rest=" ++ toHex pipe'.stable])
       else
-        let verdict := match Dec.finish s.ds with
-          | .ok () => "ok"
-          | .error e => "err " ++ fmtErr e
+        let spec := Spec.decode s.p s.input
+        let (verdict, agree) := match Dec.finish s.ds with
+          | .ok () => ("ok", decide (spec = some (s.pipe.consumed ++ s.pipe.bytes)))
+          | .error e => ("err " ++ fmtErr e, spec.isNone)
         ({ s with phase := .done },
-          ["finish " ++ verdict ++ " size=" ++ toString s.pipe.size ++ " rest=" ++ toHex s.pipe.stable])
+          ["finish " ++ verdict ++ " spec=" ++ b01 agree ++ " size=" ++ toString s.pipe.size
+            ++ " rest=" ++ toHex s.pipe.stable])
     else (s, ["bad-op"])
   | _ => (s, ["bad-op"])
 
